@@ -225,6 +225,9 @@ def run_cache(flavour, seed, n):
     for i in range(n):
         rng = random.Random(rng0.randrange(1 << 60))
         scen = C.gen_takeover(rng, flavour) if rng.random() < 0.35 else C.gen_rand(rng, flavour)
+        while any(d == C.LONG for d, _ in scen['inv']):
+            # computations outlasting the (scaled) safety timeout are a virtual-time subject: not in real time
+            scen = C.gen_rand(rng, flavour)
         # real time: keep executions short and free of 60 s-class stalls
         for th in scen['threads']:
             th['pause'] = min(th['pause'], 0.05)
@@ -243,7 +246,7 @@ def run_cache(flavour, seed, n):
             viols.append({'sig': 'B:harness-thread-error', 'what': repr(r.thread_errors[:2]), 'detail': {}})
             continue
         res = CaseResult()
-        v = C.View(r.log)
+        v = C.View(r.log, none_result=scen.get('result') == 'none')
         if flavour == 'c01':
             seen = set()
             for sig, what, detail in r.sched.online:
